@@ -57,6 +57,14 @@ def fitsFields : List (String × String × String × Ty) → List GoVal → Bool
   | _, _ => false
 end
 
+def Ty.isStrct : Ty → Bool
+  | .strct _ => true
+  | _ => false
+
+def Ty.isMap : Ty → Bool
+  | .map _ => true
+  | _ => false
+
 /-! ### Outcome plumbing -/
 
 theorem bind_eq_ok {α β : Type} {x : Outcome α} {f : α → Outcome β} {r : β}
